@@ -61,7 +61,8 @@ pub fn run(tier: Tier) -> i32 {
     let mut rep = Report::new("C11", tier, "model_checking");
     let deadline = Deadline::after(Duration::from_secs(tier.pick(50, 3000)));
     let bound = tier.pick(1, 2);
-    let list = scenarios(tier == Tier::Thorough);
+    let mut list = scenarios(tier == Tier::Thorough);
+    list.extend(crate::scen::mini_scenarios());
     let mut total = Acc::default();
     let mut per_scenario = Vec::new();
     for (name, s) in &list {
@@ -94,6 +95,7 @@ pub fn run(tier: Tier) -> i32 {
             let (trace, r) = run_schedule(s, &sched, &reference);
             if let Err(msg) = r {
                 acc.hist("violation");
+                acc.hist(&format!("violation[{name}]"));
                 acc.violation(Violation {
                     signature: format!("{name};{:?}", prefix.iter().enumerate().filter(|(_, c)| c.0 != 0).map(|(i, c)| (i, c.0)).collect::<Vec<_>>()),
                     summary: format!(
@@ -119,6 +121,7 @@ pub fn run(tier: Tier) -> i32 {
             total.hist("uniform_adversarial_schedule");
             if let Err(msg) = r {
                 total.hist("violation");
+                total.hist(&format!("violation[{name}:{sched:?}]"));
                 total.violation(Violation {
                     signature: format!("{name};{sched:?}"),
                     summary: format!("C11: scenario {name}, uniform schedule {sched:?}: {msg}"),
